@@ -614,6 +614,8 @@ def run_shard(ctx, p):
     logging.disable(logging.CRITICAL)
     rec, rng = ctx.rec, ctx.rng
     chk = Checker(ctx)
+    from tdv.gen import eflr as _E
+    _E.COUNT0_WITH_VALUE_P = 0.5       # count 0 with the value characteristic present: zero elements, zero bytes
     try:
         from tdv.mon import contracts
         inst = getattr(contracts, 'install_rp66v1_file_contracts', None)       # the contracts of C01 (physical layer), when present
